@@ -5,7 +5,7 @@
 (* order of Optimizer.Optimize:                                            *)
 (*     mergeFilters; removePassOps; optimizeParallels; mergeFilters;       *)
 (*     optimizeSourcePaths (propagateSortKey + matchFilter lift);          *)
-(*     insertDemand; removePassOps                                         *)
+(*     removePassOps; insertDemand; removePassOps                          *)
 (* over the operator algebra of Dataflow.tla.  TLC explores programs       *)
 (* (built one operator at a time) x inputs x declared sort keys and checks *)
 (*     Preserved:  Sem(Optimize(p), in) ~ Sem(p, in)                       *)
@@ -83,16 +83,15 @@ Lift(r, i) ==       \* liftIntoParPaths(ops) with ops = r.seq[i..]
                                      ![eg] = [op EXCEPT !.pin = TRUE, !.kr = op.key]],
                          r.taint, r.rules \cup {"lift-summarize"})
            [] op.k = "sort" ->
-                IF hasMerge /\ ~KeyEq(KeyOfSort(op), Key(seq[i+1].f, seq[i+1].desc, FALSE)) THEN r
-                ELSE LET mdesc == IF hasMerge THEN seq[i+1].desc ELSE op.desc     \* Args[0].Order; Reverse is not consulted
-                         t1 == IF ~hasMerge /\ op.rev THEN {"lift-sort-reverse"} ELSE {}
-                         \* the merge comparator is nullsMax (nulls first iff desc); the sort has them first iff -nulls first
-                         t2 == IF op.nf # mdesc THEN {"lift-sort-nulls"} ELSE {}
-                     IN Acc([seq EXCEPT ![i] = AppendToLegs(seq[i], op),
-                                        ![eg] = IF hasMerge THEN [k |-> "pass"]
-                                                ELSE [k |-> "merge", f |-> op.f, desc |-> op.desc]],
-                            r.taint \cup t1 \cup t2,
-                            r.rules \cup {IF hasMerge THEN "lift-sort-under-merge" ELSE "lift-sort-new-merge"})
+                \* only an ascending, nulls-last, non-reversed sort is lifted: the merge that takes
+                \* its place orders by the key with nulls as the largest value (fix 5fd9cea92)
+                IF op.rev \/ op.nf \/ op.desc THEN r
+                ELSE IF hasMerge /\ ~KeyEq(KeyOfSort(op), Key(seq[i+1].f, seq[i+1].desc, FALSE)) THEN r
+                ELSE Acc([seq EXCEPT ![i] = AppendToLegs(seq[i], op),
+                                     ![eg] = IF hasMerge THEN [k |-> "pass"]
+                                             ELSE [k |-> "merge", f |-> op.f, desc |-> op.desc]],
+                         r.taint,
+                         r.rules \cup {IF hasMerge THEN "lift-sort-under-merge" ELSE "lift-sort-new-merge"})
            [] op.k \in {"head", "tail"} ->
                 Acc([seq EXCEPT ![i] = AppendToLegs(seq[i], op)], r.taint, r.rules \cup {"lift-head-tail"})
            [] op.k \in {"cut", "drop", "put", "rename", "where", "cutcount"} ->
@@ -269,15 +268,12 @@ Optimize(prog) ==
       r7 == Acc(IF lift THEN Tail(p6.seq) ELSE p6.seq,
                 p6.taint \cup (IF lift /\ ErrCapable(p6.seq[1].ps) THEN {"pushdown-error"} ELSE {}),
                 IF lift THEN p6.rules \cup {"filter-into-source"} ELSE p6.rules)
-      \* insertDemand -> InferDemandSeqOut walks the top-level sequence and panics
-      \* ("Duplicate op value") when the same operator object occurs twice: every
-      \* placeholder written by liftIntoParPaths is the one shared dag.PassOp.
-      npass == Cardinality({i \in 1..Len(r7.seq) : r7.seq[i].k = "pass"})
+      \* removePassOps; insertDemand; removePassOps.  The pass operators are removed first
+      \* because every placeholder written by liftIntoParPaths is the one shared dag.PassOp
+      \* and InferDemandSeqOut requires distinct operators (fix 665e9a798).
       r8 == WalkNamed("removePass", r7, TRUE)
-  IN [src |-> src7, ops |-> r8.seq,
-      taint |-> r8.taint \cup (IF npass >= 2 THEN {"pass-placeholder-panic"} ELSE {}),
-      rules |-> r8.rules,
-      demand |-> DemandAtSource(r7.seq)]
+  IN [src |-> src7, ops |-> r8.seq, taint |-> r8.taint, rules |-> r8.rules,
+      demand |-> DemandAtSource(r8.seq)]
 
 \* ------------------------------------------------------ operator alphabet
 W(p) == [k |-> "where", ps |-> <<p>>]
@@ -383,9 +379,9 @@ RECURSIVE SeqsUpTo(_, _)
 SeqsUpTo(S, n) == IF n = 0 THEN {<<>>}
                   ELSE LET prev == SeqsUpTo(S, n - 1) IN prev \cup {Append(s, x) : s \in {t \in prev : Len(t) = n - 1}, x \in S}
 MidRecs == {R(a, b) : a \in {0, 1, -1, -2}, b \in {0, 2, -1}}
-\* "quick": eight of the curated inputs (sorted asc / desc with and without nulls,
-\* unsorted, null and missing in both fields, adjacent duplicates)
-CoreIx == {9, 10, 17, 18, 19, 23, 24, 27}
+\* "quick": six of the curated inputs (sorted asc, asc with nulls, desc with nulls first,
+\* unsorted with null and missing in either field, sorted with adjacent duplicate keys)
+CoreIx == {9, 17, 18, 23, 24, 27}
 InputsOf ==
   IF InputSet = "quick" THEN {QuickInputs[i] : i \in CoreIx}
   ELSE IF InputSet = "curated" THEN SeqRange(QuickInputs)
